@@ -523,10 +523,19 @@ def _write_defs(world, modname, spec):
 def _draw_spec(ch, label="defs"):
     """1-2 same-named definitions (sometimes 3), optionally the colliding x_Foo"""
     n = 1 + ch.weighted(label + "-n-classes", [5, 3, 1])
-    spec = [("Foo", VNAMES[ch.draw(label + "-variant", len(VNAMES))]) for _ in range(n)]
+    spec = [("Foo", _draw_variant(ch, label)) for _ in range(n)]
     if ch.chance(label + "-with-x_Foo", 1, 6):
-        spec.append(("x_Foo", VNAMES[ch.draw(label + "-x-variant", len(VNAMES))]))
+        spec.append(("x_Foo", _draw_variant(ch, label + "-x")))
     return spec
+
+
+SAME_SIZE = ["v1", "v2", "v3", "v4", "v5"]      # their generated modules have the same length: the most confusable
+
+
+def _draw_variant(ch, label):
+    if ch.chance(label + "-confusable", 1, 2):
+        return SAME_SIZE[ch.draw(label + "-variant", len(SAME_SIZE))]
+    return VNAMES[ch.draw(label + "-variant", len(VNAMES))]
 
 
 def _pkts_listing(root):
@@ -552,7 +561,7 @@ def _pkts_listing(root):
 class CacheSeqEngine(CacheEngineBase):
     prop = "C15"
     name = "cachesim-seq"
-    tiers = {"quick": 3000, "thorough": 300000}
+    tiers = {"quick": 8000, "thorough": 300000}
     chunks = {"quick": 20, "thorough": 250}
     rule = ("each case is a Chooser-generated history of 2..8 steps over one scratch project: DEFINE (a fresh simulated process, or "
             "one that is still alive, executes defs.py / defs_x.py as it is on disk; bytecode caching on or off per process), EDIT "
@@ -615,11 +624,12 @@ class CacheSeqEngine(CacheEngineBase):
                 violation = self.check_proc(world, proc, "C15")
                 if violation:
                     break
-                if ch.chance("backup", 1, 4):
-                    backups.append(self._backup(root))
+                backups.append(self._backup(root))          # what a backup / VCS / rsync -t could bring back later
+                if len(backups) > 3:
+                    backups.pop(0)
             elif k == 1:
                 if ch.chance("edit-defs_x", 1, 5):
-                    xspec = [("Foo", VNAMES[ch.draw("x-variant", len(VNAMES))])]
+                    xspec = [("Foo", _draw_variant(ch, "x"))]
                     _write_defs(world, "defs_x", xspec)
                     ev("defs_x.py := %s" % (xspec,))
                     history.append(("EDITX", tuple(xspec)))
@@ -634,7 +644,7 @@ class CacheSeqEngine(CacheEngineBase):
                 ev("TICK %+.1fs" % d)
                 history.append(("TICK", d))
             else:
-                j = ch.weighted("janitor", [3, 3, 2, 2, 3])
+                j = ch.weighted("janitor", [3, 2, 1, 2, 8])
                 desc = self._janitor(world, root, j, backups, ch, st)
                 ev("JANITOR %s" % desc)
                 history.append(("JANITOR", desc))
@@ -735,8 +745,12 @@ class CacheSeqEngine(CacheEngineBase):
         if not backups:
             return "restore: no backup yet"
         st["probe:janitor-restore"] += 1
-        files = backups[ch.draw("which-backup", len(backups))]
-        what = ch.weighted("restore-what", [2, 2, 1])      # everything / .py only / .pyc only
+        # prefer a copy whose generated module is not the one on disk now (the interesting restores)
+        cur = {rel: data for rel, data, _ in self._backup(root) if rel.endswith(".py")}
+        differing = [b for b in backups if {rel: data for rel, data, _ in b if rel.endswith(".py")} != cur]
+        pool_ = differing if differing and ch.chance("restore-differing", 3, 4) else backups
+        files = pool_[ch.draw("which-backup", len(pool_))]
+        what = ch.weighted("restore-what", [2, 2, 3])      # everything / .py only / .pyc only
         n = 0
         for rel, data, mtime in files:
             if what == 1 and not rel.endswith(".py"):
